@@ -30,7 +30,10 @@ def parseGEnt (s : String) : GEnt :=
   ⟨k, parts.getD 1 "" == "n"⟩
 
 /-- the harness adds a named global `@base` first and a named declaration `@resolver` last -/
-def modEnts (a : List String) : List GEnt := ⟨.global, true⟩ :: (a.map parseGEnt ++ [⟨.func, true⟩])
+def modEnts (a : List String) : List GEnt :=
+  -- tokens `X:<kind>` are top-level entities of OTHER namespaces (attribute group, metadata, type, comdat definitions) written between the global
+  -- entities: they take no part in the numbering of unnamed globals
+  ⟨.global, true⟩ :: ((a.filter (fun t => !t.startsWith "X")).map parseGEnt ++ [⟨.func, true⟩])
 
 def numOps (op : String) (a : List String) : Option String :=
   match op, a with
